@@ -89,14 +89,21 @@ def run():
         reqs.append({"id": str(i), "src": src, "fuel": 20000, "deadline_ms": 3000})     # a broken guard must not make the walks endless
         exps.append(expect)
     out = run_cases(reqs, label="C14")
-    nontrivial = comparisons = 0
+    nontrivial = comparisons = undecided = 0
+    late = [dict(r, deadline_ms=30000) for r in reqs if out[r["id"]]["end"].startswith("discarded:")][:200]
+    again = run_cases(late, label="C14 undecided again", nproc=4) if late else {}
     for i, c in enumerate(cases):
         o = out[str(i)]
         ops = "+".join(e["op"] for e in c["log"])
         if pvlib.is_host_crash(o["end"]):
             ck.reject("C14:host-crash", o["end"], {"src": reqs[i]["src"]})
             continue
-        if o["end"].startswith(("fuel:", "discarded:")):
+        if o["end"].startswith("discarded:"):       # deadline / memory: says nothing by itself - asked again below, alone and with a long deadline
+            o = again.get(str(i), o)
+        if o["end"].startswith("discarded:"):
+            undecided += 1
+            continue
+        if o["end"].startswith("fuel:"):             # the step budget is deterministic: the walk really does not end within 20 000 steps
             if c["body"] != "unguarded":
                 ck.reject(f"C14:{c['body']}:does-not-terminate", f"a history over a guarded iterator does not finish ({o['end']}); observations so far {o['events']}",
                           {"src": reqs[i]["src"], "observed": [o["events"], o["end"]], "expected": [w for _, w in exps[i]]})
@@ -120,6 +127,9 @@ def run():
                           {"src": reqs[i]["src"], "observation": what, "observed": got, "expected": want})
                 break
     ck.sample({"src": reqs[len(cases) // 2]["src"], "events": out[str(len(cases) // 2)]["events"]})
+    ck.cov["undecided"] = undecided
+    if undecided > max(20, len(cases) // 20):
+        raise pvlib.Broken(f"{undecided} of {len(cases)} history programs could not be evaluated (deadline / memory): the machine is too loaded to judge")
     ck.cov["evaluations"] = comparisons
     ck.cov["distinct_nontrivial"] = nontrivial
     ck.cov["traces_validated_against_impl"] = len(cases)
